@@ -4,12 +4,14 @@ input : {"cases":[case..]}          case = see tools/props/C10.py (gen_case)
 output: {"results":[res..]}
 
 Generator trees ("g-trees", built with the real constructors):
-  {"k":"num","p":n,"q":n} {"k":"fun","n":name} {"k":"const","n":name} {"k":"coord","i":n} {"k":"normal"}
+  {"k":"num","p":n,"q":n} {"k":"fun","n":name[,"s":space id]} {"k":"const","n":name} {"k":"coord","i":n} {"k":"normal"}
+  (a function reference without "s" lives in the home space of its name: case["home"][name], default V / W; with "s" it is
+   the function of that name in the space SPACES[s] - a same-named twin when the name is also used in its home space)
   {"k":"add","a":[..]} {"k":"mul","a":[..]} {"k":"pow","b":..,"e":int}
   {"k":"op","n":"grad|div|curl|laplace|dot|inner|cross|dx1|dx2|dx3","a":[..]} {"k":"idx","of":..,"i":n}
 
 Structural trees ("c-trees", what the generic serialiser returns; mirror of coq/Model/CallM.v `expr`):
-  {"l":"fun","n":name,"v":bool} {"l":"const","n":name} {"l":"coord","n":name} {"l":"num","p":n,"q":n}
+  {"l":"fun","n":name,"v":bool,"s":"<space name>:<space kind>"} {"l":"const","n":name} {"l":"coord","n":name} {"l":"num","p":n,"q":n}
   {"l":"other","c":class,"n":name}
   {"o":"Add"|"Mul"|"Pow"|<class name>,"a":[c-tree..]}
 A form body is a list of [region string, c-tree]; regions: "dom:<name>" / "bnd:<domain>:<name>:<axis>:<ext>".
@@ -26,6 +28,13 @@ from sympy import Add, Mul, Pow, Integer, Rational, Symbol, S
 
 COORDS = ["x1", "x2", "x3"]
 
+# space id -> (vector?, name of the space, kind); the identity of a function is (class, name, space): its hash is
+# hash((name, space)) and hash(space) = hash((space name, domain, shape, kind))
+SPACES = {"V": (False, "V", None), "W": (True, "W", None),
+          "V2": (False, "V2", None), "Vh": (False, "V", "h1"), "Vl": (False, "Q", "l2"),
+          "W2": (True, "W2", None), "Wc": (True, "W", "hcurl"), "Wd": (True, "Wd", "hdiv"),
+          "VX": (True, "V", None), "WS": (False, "W", None)}
+
 
 class Unsupported(Exception):
     pass
@@ -37,20 +46,50 @@ class World:
         from sympde.topology import Square, Cube, ScalarFunctionSpace, VectorFunctionSpace, NormalVector
         self.dim = case["dim"]
         self.domain = {2: Square, 3: Cube}[self.dim]("Omega")
-        self.V = ScalarFunctionSpace("V", self.domain)
-        self.W = VectorFunctionSpace("W", self.domain)
-        self.vec = dict(case["functions"])          # name -> is vector
+        self.table = dict(SPACES)
+        self.table.update({k: tuple(v) for k, v in case.get("spaces", {}).items()})
+        self.spaces = {}
+        self.vec = dict(case["functions"])          # name -> is vector (class of the name in its home space)
+        self.home = dict(case.get("home", {}))      # name -> space id of the plain references
         self.funs = {}
         self.consts = {}
         self.nn = NormalVector("nn")
 
-    def fun(self, name):
+    def space(self, sid):
+        from sympde.topology import ScalarFunctionSpace, VectorFunctionSpace
+        if sid not in self.spaces:
+            vec, name, kind = self.table[sid]
+            self.spaces[sid] = (VectorFunctionSpace if vec else ScalarFunctionSpace)(name, self.domain, kind=kind)
+        return self.spaces[sid]
+
+    def sid_of(self, name, sid=None):
+        if sid is not None:
+            return sid
+        if name in self.home:
+            return self.home[name]
+        if name not in self.vec:
+            raise KeyError("undeclared function " + name)
+        return "W" if self.vec[name] else "V"
+
+    def isvec(self, name, sid=None):
+        return bool(self.table[self.sid_of(name, sid)][0])
+
+    def fun(self, name, sid=None):
         from sympde.topology import element_of
-        if name not in self.funs:
-            if name not in self.vec:
-                raise KeyError("undeclared function " + name)
-            self.funs[name] = element_of(self.W if self.vec[name] else self.V, name=name)
-        return self.funs[name]
+        sid = self.sid_of(name, sid)
+        if (name, sid) not in self.funs:
+            self.funs[(name, sid)] = element_of(self.space(sid), name=name)
+        return self.funs[(name, sid)]
+
+    def product_elements(self, refs):
+        """the functions [(name, sid)..] created as ONE element of the product of their spaces"""
+        from sympde.topology import element_of
+        from sympde.topology.space import ProductSpace
+        sids = [self.sid_of(n, s) for n, s in refs]
+        out = list(element_of(ProductSpace(*[self.space(s) for s in sids]), name=[n for n, _ in refs]))
+        for (n, _), s, f in zip(refs, sids, out):
+            self.funs.setdefault((n, s), f)
+        return out
 
     def const(self, name):
         from sympde.core import Constant
@@ -71,7 +110,7 @@ def build(g, w):
     if k == "num":
         return Rational(g["p"], g["q"])
     if k == "fun":
-        return w.fun(g["n"])
+        return w.fun(g["n"], g.get("s"))
     if k == "const":
         return w.const(g["n"])
     if k == "coord":
@@ -109,7 +148,7 @@ def ser(e):
     if not isinstance(e, sp.Basic):
         raise Unsupported("non-sympy object %s" % type(e).__name__)
     if isinstance(e, (ScalarFunction, VectorFunction)):
-        return {"l": "fun", "n": e.name, "v": isinstance(e, VectorFunction)}
+        return {"l": "fun", "n": e.name, "v": isinstance(e, VectorFunction), "s": space_tag(e.space)}
     if isinstance(e, Constant):
         return {"l": "const", "n": e.name}
     if isinstance(e, Integer):
@@ -139,6 +178,11 @@ def ser(e):
     if not e.args:
         raise Unsupported("argument-less node %s" % type(e).__name__)
     return {"o": type(e).__name__, "a": [ser(a) for a in e.args]}
+
+
+def space_tag(sp):
+    """what the hash of a function space depends on besides the (fixed) domain and the shape given by the class"""
+    return "%s:%s" % (sp.name, sp.kind.name)
 
 
 def ser_region(d):
@@ -173,6 +217,9 @@ def ser_body(expr):
 
 
 def errkind(e):
+    from sympde.calculus.errors import ArgumentTypeError
+    if isinstance(e, ArgumentTypeError):
+        return "argtype"          # the calculus refuses the kind of the space of an operand
     if isinstance(e, TypeError):
         return "type"
     if isinstance(e, ValueError):
@@ -206,8 +253,8 @@ class Conc:
         p += q() * xs[0] * xs[-1] ** 2 + q() * r.choice([1, -1]) * xs[0] ** 2 * xs[1]
         return p
 
-    def fun(self, name, vec):
-        key = (name, vec)
+    def fun(self, name, vec, tag=""):
+        key = (name, vec, tag)        # same-named functions of different spaces are different functions
         if key not in self.polys:
             self.polys[key] = [self.poly() for _ in range(self.dim)] if vec else self.poly()
         return self.polys[key]
@@ -234,9 +281,9 @@ class Conc:
                     return env[("const", t["n"])]
                 return ("s", self.const(t["n"]))
             if l == "fun":
-                if ("fun", t["n"], t["v"]) in env:
-                    return env[("fun", t["n"], t["v"])]
-                v = self.fun(t["n"], t["v"])
+                if fkey(t) in env:
+                    return env[fkey(t)]
+                v = self.fun(t["n"], t["v"], t.get("s", ""))
                 return ("v", list(v)) if t["v"] else ("s", v)
             if l == "other" and t["c"] == "NormalVector":
                 return ("v", list(self.normal))
@@ -352,6 +399,11 @@ class Conc:
         return r
 
 
+def fkey(t):
+    """environment key of a serialised function leaf: class, name and space"""
+    return ("fun", t["n"], bool(t["v"]), t.get("s", ""))
+
+
 def eval_body(conc, body, env, pts):
     """{region: [exact values at pts]}; regions with the same name are added."""
     out = {}
@@ -453,34 +505,70 @@ def lowered(expr, w):
 
 
 # ------------------------------------------------------------------------------------------------ one case
-def swap_roles(g, m):
-    if g["k"] == "fun":
-        return {"k": "fun", "n": m.get(g["n"], g["n"])}
+def subst_g(g, posmap, kwmap, declared):
+    """simultaneous substitution on generator trees (the independent reference for `direct`): a plain reference to a
+    declared argument takes its positional value; any other function / constant whose name is a keyword takes the
+    keyword's value; what is inserted is not looked at again"""
+    k = g["k"]
+    if k == "fun":
+        plain = "s" not in g
+        if plain and g["n"] in posmap:
+            return posmap[g["n"]]
+        if g["n"] in kwmap and not (plain and g["n"] in declared):
+            return kwmap[g["n"]]
+        return g
+    if k == "const":
+        return kwmap.get(g["n"], g)
     out = dict(g)
     if "a" in g:
-        out["a"] = [swap_roles(x, m) for x in g["a"]]
+        out["a"] = [subst_g(x, posmap, kwmap, declared) for x in g["a"]]
     if "b" in g:
-        out["b"] = swap_roles(g["b"], m)
+        out["b"] = subst_g(g["b"], posmap, kwmap, declared)
     if "of" in g:
-        out["of"] = swap_roles(g["of"], m)
+        out["of"] = subst_g(g["of"], posmap, kwmap, declared)
     return out
 
 
-def build_form(case, w, integrals):
-    from sympde.expr import BilinearForm, LinearForm, integral
+def direct_maps(direct):
+    """direct: [[old name, new name | g-tree]..]  |  {"pos": [[name, g-tree]..], "kw": [[name, g-tree]..]}"""
+    tree = lambda x: {"k": "fun", "n": x} if isinstance(x, str) else x
+    if isinstance(direct, dict):
+        return {n: tree(t) for n, t in direct.get("pos", [])}, {n: tree(t) for n, t in direct.get("kw", [])}
+    return {n: tree(t) for n, t in direct}, {}
+
+
+def build_expr(w, integrals):
+    from sympde.expr import integral
     expr = None
     for it in integrals:
         term = integral(w.region(it["region"]), build(it["e"], w))
         expr = term if expr is None else expr + term
-    tr = [w.fun(n) for n in case["trials"]]
-    te = [w.fun(n) for n in case["tests"]]
+    return expr
+
+
+def build_form(case, w, integrals):
+    from sympde.expr import BilinearForm, LinearForm
+    expr = build_expr(w, integrals)
+    if case.get("product_decl") and len(case["trials"] + case["tests"]) > 1:
+        # the declared arguments are created as elements of a ProductSpace
+        if case["trials"]:
+            tr = w.product_elements([(n, None) for n in case["trials"]])
+        else:
+            tr = []
+        te = w.product_elements([(n, None) for n in case["tests"]])
+    else:
+        tr = [w.fun(n) for n in case["trials"]]
+        te = [w.fun(n) for n in case["tests"]]
     pack = lambda l: l[0] if (len(l) == 1 and not case.get("tuple_args")) else tuple(l)
     info = {"check_linearity": True}
+    import contextlib
+    import io
     try:
-        if case["kind"] == "bilinear":
-            form = BilinearForm((pack(tr), pack(te)), expr)
-        else:
-            form = LinearForm(pack(te), expr)
+        with contextlib.redirect_stdout(io.StringIO()):
+            if case["kind"] == "bilinear":
+                form = BilinearForm((pack(tr), pack(te)), expr)
+            else:
+                form = LinearForm(pack(te), expr)
     except Exception as e:  # noqa
         if type(e).__name__ != "UnconsistentLinearExpressionError":
             raise
@@ -494,6 +582,8 @@ def build_form(case, w, integrals):
 
 def build_parg(p, w):
     if "seq" in p:
+        if p.get("as") == "product" and len(p["seq"]) > 1 and all(x["k"] == "fun" for x in p["seq"]):
+            return w.product_elements([(x["n"], x.get("s")) for x in p["seq"]])
         items = [build(x, w) for x in p["seq"]]
         if p.get("as") == "list":
             return list(items)
@@ -509,8 +599,141 @@ def ser_parg(obj):
     return {"val": ser(obj)}
 
 
+# ------------------------------------------------------------------------------------------------ identity oracle
+def okey(x):
+    """identity of an atom as Python sees it in a dictionary: class, name and (for functions) the space"""
+    from sympde.topology.space import ScalarFunction, VectorFunction
+    if isinstance(x, (ScalarFunction, VectorFunction)):
+        spc = x.space
+        return (type(x).__name__, x.name, type(spc).__name__, spc.name, spc.kind.name, spc.domain.name)
+    return (type(x).__name__, x.name)
+
+
+def occurrences(e):
+    """every occurrence of a function / constant in the integrands of e (pre-order walk over .args), with its region"""
+    from sympde.topology.space import ScalarFunction, VectorFunction
+    from sympde.core.basic import Constant
+    out = []
+
+    def walk(t, reg):
+        if isinstance(t, (ScalarFunction, VectorFunction, Constant)):
+            out.append((reg, t))
+            return
+        for a in t.args:
+            walk(a, reg)
+    for i in integrals_of(e):
+        walk(i.expr, ser_region(i.domain))
+    return out
+
+
+def flat_objects(kind, pos, nvars):
+    """the supplied value objects, one per declared argument, as __call__ is specified to pair them (None: wrong number)"""
+    aslist = lambda p: list(p) if isinstance(p, (tuple, list, sp.Tuple)) else [p]
+    if kind == "bilinear":
+        if len(pos) != 2:
+            return None
+        vals = aslist(pos[0]) + aslist(pos[1])
+    else:
+        vals = aslist(pos[0]) if len(pos) == 1 else list(pos)
+    return vals if len(vals) == nvars else None
+
+
+def identity_oracle(form, case, declared, vals, kw, result):
+    """C10 read on the objects themselves (no model, no serialiser): after the call no declared argument (no keyword
+    target) survives where a different value was supplied, each supplied value sits exactly where the declared one
+    was, and everything else is unchanged.  Atoms are identified by Python identity first, else by class, name and
+    .space."""
+    from collections import Counter
+    import sympy
+    orig = occurrences(form.expr)
+    got = occurrences(result)
+    dkeys = [okey(d) for d in declared]
+    atoms_of = lambda v: [x for _, x in occurrences_expr(v)]
+    supplied = set()
+    for v in list(vals) + [v for _, v in kw]:
+        supplied |= {okey(x) for x in atoms_of(v)}
+    gotkeys = Counter(okey(x) for _, x in got)
+    rep = {"declared": len(declared), "occurrences": len(orig)}
+    # free symbols of the form, independently of form.fields: every function that is not a declared argument, every constant
+    free = {}
+    for _, x in orig:
+        if okey(x) not in dkeys:
+            free[okey(x)] = x
+    target = {}                      # key of a replaced symbol -> value object
+    for d, v in zip(declared, vals):
+        target[okey(d)] = v          # a later duplicate wins, as in dict(zip(..))
+    for n, v in kw:
+        for k, x in free.items():
+            if x.name == n:
+                target[k] = v
+    # (a) nothing that had to go survives
+    for k, v in target.items():
+        same = isinstance(v, sympy.Basic) and not v.args and okey_safe(v) == k
+        if same:
+            continue
+        if gotkeys.get(k, 0) and k not in supplied:
+            rep["bad"] = "survives"
+            rep["detail"] = "%s is still in the result although the value %s was supplied for it" % (list(k), v)
+            return rep
+    # (b) nothing foreign appears
+    allowed = {okey(x) for _, x in orig} | supplied
+    for k in gotkeys:
+        if k not in allowed:
+            rep["bad"] = "foreign"
+            rep["detail"] = "%s is neither in the form nor in a supplied value" % (list(k),)
+            return rep
+    # (c) a clean renaming (every value an atom, injective, no value already in the form unless it is a replaced
+    #     symbol itself): region by region the occurrences of the result are exactly the renamed occurrences
+    atom_vals = all(isinstance(v, sympy.Basic) and not v.args and hasattr(v, "name") and okey_safe(v) is not None
+                    for v in target.values())
+    if atom_vals:
+        vk = [okey(v) for v in target.values()]
+        others = {okey(x) for _, x in orig} - set(target)
+        clean = len(set(vk)) == len(vk) and not (set(vk) & others)
+        if clean:
+            exp = Counter((reg, okey(target[okey(x)]) if okey(x) in target else okey(x)) for reg, x in orig)
+            have = Counter((reg, okey(x)) for reg, x in got)
+            rep["clean_renaming"] = True
+            if exp != have:
+                rep["bad"] = "moved"
+                miss = list((exp - have).items())[:3]
+                extra = list((have - exp).items())[:3]
+                rep["detail"] = "occurrences expected but absent %s; present but not expected %s" % (miss, extra)
+                return rep
+            # Python identity: where a value was supplied, the object found in the result is that very object
+            byid = {id(v) for v in target.values()}
+            vkeys = set(vk)
+            rep["objects_checked"] = sum(1 for _, x in got if okey(x) in vkeys)
+            rep["objects_identical"] = sum(1 for _, x in got if okey(x) in vkeys and id(x) in byid)
+    rep["bad"] = None
+    return rep
+
+
+def okey_safe(v):
+    try:
+        return okey(v)
+    except Exception:  # noqa
+        return None
+
+
+def occurrences_expr(v):
+    from sympde.topology.space import ScalarFunction, VectorFunction
+    from sympde.core.basic import Constant
+    out = []
+
+    def walk(t):
+        if isinstance(t, (ScalarFunction, VectorFunction, Constant)):
+            out.append((None, t))
+            return
+        for a in getattr(t, "args", ()):
+            walk(a)
+    walk(v)
+    return out
+
+
 def run_case(case):
     import sympy.core.cache
+    from sympde.expr.basic import BasicForm
     sympy.core.cache.clear_cache()
     w = World(case)
     form, info = build_form(case, w, case["integrals"])
@@ -519,17 +742,38 @@ def run_case(case):
         res["form"] = {"zero": True}
         return res
     if case["kind"] == "bilinear":
+        declared = list(form.variables[0]) + list(form.variables[1])
         trials = [ser(x) for x in form.variables[0]]
         tests = [ser(x) for x in form.variables[1]]
     else:
+        declared = list(form.variables)
         trials, tests = [], [ser(x) for x in form.variables]
     body = ser_body(form.expr)
     res["form"] = {"trials": trials, "tests": tests, "body": body}
-    res["free"] = {"fields": sorted(x.name for x in form.fields), "consts": sorted(x.name for x in form.constants)}
+    decl_leaves = trials + tests
+    dkeys = {okey(d) for d in declared}
+    # free symbols, independently of the implementation: every function of the integrands that is not (by class, name
+    # and space) a declared argument, and every constant
+    free_f, free_c = {}, set()
+    for _, x in occurrences(form.expr):
+        if okey(x) in dkeys:
+            continue
+        t = ser(x)
+        if t["l"] == "fun":
+            free_f[json.dumps(t, sort_keys=True)] = t
+        else:
+            free_c.add(t["n"])
+    res["free"] = {"fields": sorted(t["n"] for t in free_f.values()), "consts": sorted(free_c),
+                   "field_leaves": [free_f[k] for k in sorted(free_f)]}
+    res["free_impl"] = {"fields": sorted(json.dumps(ser(x), sort_keys=True) for x in form.fields),
+                        "consts": sorted(x.name for x in form.constants),
+                        "names": sorted(form.get_free_variables())}
+    # the attributes of the base class (anchored): the integration domain(s) recorded for the form
+    dom0 = BasicForm.domain.fget(form)
+    res["base"] = {"domain": str(dom0), "domain_is_form_domain": dom0 is form.domain, "ldim": str(BasicForm.ldim.fget(form))}
     res["lowered"] = lowered(form.expr, w)
     conc = Conc(case["seed"], case["dim"], case["functions"])
     pts = [conc.point() for _ in range(2)]
-    varnames = case["trials"] + case["tests"]
 
     # ---- symmetry flag (bilinear only) and what exchange really does to the value
     if case["kind"] == "bilinear":
@@ -538,17 +782,14 @@ def run_case(case):
             sym["flag"] = bool(form.is_symmetric)
         except Exception as e:  # noqa
             sym["flag_err"] = errkind(e)
-        kinds_tr = [w.vec[n] for n in case["trials"]]
-        kinds_te = [w.vec[n] for n in case["tests"]]
-        if kinds_tr == kinds_te:
+        if [t["v"] for t in trials] == [t["v"] for t in tests]:
             try:
                 base = eval_body(conc, body, {}, pts)
                 env = {}
-                for a, b in zip(case["trials"], case["tests"]):
-                    va = conc.ev({"l": "fun", "n": a, "v": w.vec[a]}, {})
-                    vb = conc.ev({"l": "fun", "n": b, "v": w.vec[b]}, {})
-                    env[("fun", a, w.vec[a])] = vb
-                    env[("fun", b, w.vec[b])] = va
+                for a, b in zip(trials, tests):
+                    va, vb = conc.ev(a, {}), conc.ev(b, {})
+                    env[fkey(a)] = vb
+                    env[fkey(b)] = va
                 exch = eval_body(conc, body, env, pts)
                 sym["pointwise_symmetric"] = same_values(base, exch)
                 if not sym["pointwise_symmetric"]:
@@ -575,8 +816,25 @@ def run_case(case):
         except Exception as e:  # noqa
             out["build_err"] = traceback.format_exc()[-600:]
             continue
+        # (ii) the reference built directly: the integrands written with the values in the places of the arguments
+        if call.get("direct"):
+            try:
+                pm, km = direct_maps(call["direct"])
+                names = set(case["trials"] + case["tests"])
+                ints = [{"region": it["region"], "e": subst_g(it["e"], pm, km, names)} for it in case["integrals"]]
+                e2 = build_expr(w, ints)
+                out["direct_body"] = ser_body(e2)
+            except Unsupported as e:
+                out["direct_unsupported"] = str(e)
+            except Exception as e:  # noqa
+                out["direct_err"] = traceback.format_exc()[-600:]
+                out["direct_err_kind"] = errkind(e)
         try:
-            r = form(*pos, **dict(kw))
+            if call.get("via") == "update_free":
+                # BasicForm._update_free_variables: the keyword substitution alone
+                r = form._update_free_variables(**dict(kw))
+            else:
+                r = form(*pos, **dict(kw))
         except Exception as e:  # noqa
             out["err"] = errkind(e)
             out["msg"] = str(e)[:200]
@@ -588,34 +846,47 @@ def run_case(case):
             continue
         if call.get("kind") == "own":
             try:
-                out["eq_self"] = bool(r == form.expr)
+                out["eq_self"] = bool(r == form.expr) and hash(r) == hash(form.expr)
             except Exception as e:  # noqa
                 out["eq_self"] = False
                 out["eq_self_err"] = errkind(e)
+        # the form itself is not altered by the call
+        try:
+            if ser_body(form.expr) != body or BasicForm.domain.fget(form) is not dom0:
+                out["form_altered"] = True
+        except Exception:  # noqa
+            out["form_altered"] = True
         if call.get("lower"):
             out["lowered"] = lowered(r, w)
+        # (v) the identity oracle on the objects
+        vals_obj = declared if call.get("via") == "update_free" else flat_objects(case["kind"], pos, len(declared))
+        if vals_obj is not None:
+            try:
+                out["ident"] = identity_oracle(form, case, declared, vals_obj, kw, r)
+            except Unsupported as e:
+                out["ident"] = {"unsupported": str(e)}
         # (iv) numeric instantiation: result vs original evaluated at the substituted arguments, simultaneously
         orc = {}
         out["oracle"] = orc
         try:
-            values = flat_values(case, call, out)
+            values = None if vals_obj is None else list(zip(decl_leaves, [ser(v) for v in vals_obj]))
             if values is None:
                 orc["skipped"] = "arity"
+            elif any(shape_of(t) not in (None, d["v"]) for d, t in values):
+                orc["skipped"] = "shape"        # a vector where a scalar was declared (or the converse)
             else:
-                free = res["free"]
-
-                def key_of(n):
-                    if n in free["consts"]:
-                        return ("const", n)
-                    if n in free["fields"]:
-                        return ("fun", n, w.vec[n])
-                    return ("not-free", n)        # binds nothing: the name is not a free symbol of the form
+                def keys_of(n):
+                    ks = [fkey(t) for t in res["free"]["field_leaves"] if t["n"] == n]
+                    if n in res["free"]["consts"]:
+                        ks.append(("const", n))
+                    return ks or [("not-free", n)]       # binds nothing: the name is not a free symbol of the form
                 # simultaneous: every replacement is evaluated in the caller's environment
                 env = {}
-                for name, t in values:
-                    env[("fun", name, w.vec[name])] = conc.ev(t, {})
+                for d, t in values:
+                    env[fkey(d)] = conc.ev(t, {})
                 for n, t in out["kw"]:
-                    env[key_of(n)] = conc.ev(t, {})
+                    for k in keys_of(n):
+                        env[k] = conc.ev(t, {})
                 exp = eval_body(conc, body, env, pts)
                 got = eval_body(conc, out["body"], {}, pts)
                 orc["ok"] = same_values(exp, got)
@@ -624,49 +895,39 @@ def run_case(case):
                     orc["points"] = [{str(k): str(v) for k, v in p.items()} for p in pts]
                     # what one-substitution-after-the-other predicts (keywords in order, then the arguments)
                     senv = {}
-                    for name, t in values:
-                        senv[("fun", name, w.vec[name])] = conc.ev(t, {})
+                    for d, t in values:
+                        senv[fkey(d)] = conc.ev(t, {})
                     for n, t in reversed(out["kw"]):
                         senv2 = dict(senv)
-                        senv2[key_of(n)] = conc.ev(t, senv)
+                        for k in keys_of(n):
+                            senv2[k] = conc.ev(t, senv)
                         senv = senv2
                     orc["sequential_predicts_got"] = same_values(eval_body(conc, body, senv, pts), got)
         except Unsupported as e:
             orc["unsupported"] = str(e)
-        # (ii) exchange: the form built directly with exchanged roles
-        if call.get("direct"):
-            try:
-                m = dict(call["direct"])
-                ints = [{"region": it["region"], "e": swap_roles(it["e"], m)} for it in case["integrals"]]
-                form2, _ = build_form(case, w, ints)
-                b2 = ser_body(form2.expr) if hasattr(form2, "expr") else []
-                out["direct_body"] = b2
-                out["direct_same"] = canon_body(b2) == canon_body(out["body"])
-                if not out["direct_same"]:
+        if "direct_body" in out:
+            b2 = out["direct_body"]
+            out["direct_same"] = canon_body(b2) == canon_body(out["body"])
+            if not out["direct_same"]:
+                try:
                     out["direct_numeric"] = same_values(eval_body(conc, b2, {}, pts), eval_body(conc, out["body"], {}, pts))
-            except Unsupported as e:
-                out["direct_unsupported"] = str(e)
-            except Exception as e:  # noqa
-                out["direct_err"] = traceback.format_exc()[-600:]
+                except Unsupported as e:
+                    out["direct_undecided"] = str(e)
     return res
 
 
-def flat_values(case, call, out):
-    """[(variable name, c-tree of its value)] when the call supplies exactly one value per declared variable."""
-    pos = out["pos"]
-    aslist = lambda p: p["seq"] if "seq" in p else [p["val"]]
-    if case["kind"] == "bilinear":
-        if len(pos) != 2:
-            return None
-        tr, te = aslist(pos[0]), aslist(pos[1])
-        if len(tr) != len(case["trials"]) or len(te) != len(case["tests"]):
-            return None
-        vals = tr + te
-    else:
-        vals = aslist(pos[0]) if len(pos) == 1 else [p.get("val") for p in pos]
-        if len(vals) != len(case["tests"]) or any(v is None for v in vals):
-            return None
-    return list(zip(case["trials"] + case["tests"], vals))
+def shape_of(t):
+    """True: vector-valued, False: scalar-valued, None: not determined from the leaves alone"""
+    if "l" in t:
+        if t["l"] == "fun":
+            return bool(t["v"])
+        return None if t["l"] == "other" else False
+    if t["o"] in ("Add", "Mul"):
+        ss = [shape_of(x) for x in t["a"]]
+        if any(x is True for x in ss):
+            return True
+        return False if all(x is False for x in ss) else None
+    return None
 
 
 def main():
